@@ -340,6 +340,11 @@ func (x *Exec) allRequires() []gcl.Clause {
 }
 
 func (x *Exec) allEnsures() []gcl.Clause {
+	if x.contract.Assumed {
+		// an assumed contract selected for a property: only its exit (and call) clauses are verified against the body,
+		// the ensures / fresh / modifies clauses stay assumptions of the callers (listed as UNVERIFIED in the evidence)
+		return append([]gcl.Clause(nil), x.contract.Exits...)
+	}
 	es := append([]gcl.Clause(nil), x.contract.Ensures...)
 	es = append(es, x.contract.Exits...)
 	for _, k := range x.contract.Implements {
@@ -469,6 +474,9 @@ func (x *Exec) checkPost(fr *frame, o outcome) {
 			label = fmt.Sprintf("ensures%d", i)
 		}
 		x.emit(&Obligation{Kind: "post", Label: label, Facts: o.st.facts, Goal: t, Source: e.Src}, o.st)
+	}
+	if x.contract.Assumed {
+		return
 	}
 	for _, name := range x.contract.Fresh {
 		t, err := x.evalClauseTyped(gcl.Ident{Name: name}, o.st, x.entry, fr, o.results)
